@@ -17,23 +17,46 @@ Fixpoint tbl_str (t : list (pystr * pystr)) (s : pystr) : pystr :=
   | (k, b) :: r => if pystr_eqb k s then b else tbl_str r s
   end.
 
+(* str.lower(): the harness sends Python's result for every str on which it is not the ASCII
+   lower-casing (non-ASCII letters: final sigma, dotted capital I, ...); elsewhere ASCII *)
+Fixpoint tbl_lower (t : list (pystr * pystr)) (s : pystr) : pystr :=
+  match t with
+  | [] => lower s
+  | (k, b) :: r => if pystr_eqb k s then b else tbl_lower r s
+  end.
+
 Local Open Scope string_scope.
 
 Definition sx_reports {V} (f : V -> sx) (verbose2 : bool) (l : list (pystr * V)) : sx :=
   if verbose2 then SL (map (fun kv => SL [sx_str (fst kv); f (snd kv)]) l)
   else SL (map (fun kv => sx_str (fst kv)) l).
-Definition sx_pval (o : option value) : sx :=
-  match o with Some v => sx_value v | None => SA "method" end.
+(* mirrors c16.xcanon: the canonical form of harness.values.canon + instances ("O"), named tuples ("N"),
+   unreadable objects ("U"); a bound method is the instance ("O" "method" []) *)
+Fixpoint sx_xvalue (v : xvalue) : sx :=
+  match v with
+  | XAtom a => sx_atom a
+  | XList xs => SL [SA "L"; SL (map sx_xvalue xs)]
+  | XTuple xs => SL [SA "T"; SL (map sx_xvalue xs)]
+  | XDict kvs => SL [SA "D"; SL (map (fun kv => SL [sx_atom (fst kv); sx_xvalue (snd kv)]) kvs)]
+  | XSet xs => SL [SA "S"; SL (sx_sort (map sx_atom xs))]
+  | XFrozen xs => SL [SA "F"; SL (sx_sort (map sx_atom xs))]
+  | XObj c avs => SL [SA "O"; sx_str c; SL (map (fun av => SL [sx_str (fst av); sx_xvalue (snd av)]) avs)]
+  | XNamed c avs => SL [SA "N"; sx_str c; SL (map (fun av => SL [sx_str (fst av); sx_xvalue (snd av)]) avs)]
+  | XOpaque c => SL [SA "U"; sx_str c]
+  end.
+Definition sx_pval (o : option xvalue) : sx :=
+  match o with Some v => sx_xvalue v | None => sx_xvalue (XObj (s2p "method") []) end.
 
 (* one correspondence case *)
 Definition run_search (verbose2 : bool) (c : config)
-           (re_tbl excl_tbl : list (pystr * bool)) (b_tbl : list (pystr * pystr)) (re_text : pystr)
-           (str_attrs bytes_attrs : list pystr) (item : value) (obj : value) : sx :=
+           (re_tbl excl_tbl : list (pystr * bool)) (b_tbl l_tbl : list (pystr * pystr)) (re_text : pystr)
+           (str_attrs bytes_attrs : list pystr) (item : value) (obj : xvalue) : sx :=
   let brepr := tbl_str b_tbl in
-  match deep_search brepr (tbl_bool re_tbl) (tbl_bool excl_tbl) re_text str_attrs bytes_attrs c item obj with
+  match deep_search (tbl_lower l_tbl) brepr (tbl_bool re_tbl) (tbl_bool excl_tbl) re_text str_attrs bytes_attrs c item obj with
   | RRaise => SA "raise"
   | ROk evs => SL [SA "ok"; sx_reports sx_pval verbose2 (matched_paths brepr evs);
-                   sx_reports sx_value verbose2 (matched_values brepr evs)]
+                   sx_reports sx_xvalue verbose2 (matched_values brepr evs);
+                   SL (map sx_str (unprocessed brepr evs))]
   end.
 
 Definition sx_ty (t : ty) : sx :=
